@@ -47,11 +47,11 @@ type DirOpts struct {
 func DrawDirSpec(t *tape.Tape, o DirOpts) DirSpec {
 	start := t.Pos()
 	var s DirSpec
-	ws := []string{"builder", "boxo", "boxo-history"}
+	ws := []string{"builder", "boxo", "boxo-history", "mixed-fanout"}
 	if o.OnlyBuilder {
 		ws = []string{"builder"}
 	} else if o.NoBuilder {
-		ws = []string{"boxo", "boxo-history"}
+		ws = []string{"boxo", "boxo-history", "mixed-fanout"}
 	}
 	s.Writer = ws[t.Intn(len(ws))]
 	s.Fanout = []int{8, 16, 32, 64, 128, 256, 512, 1024}[t.Pick(6, 3, 2, 1, 1, 2, 1, 1)]
@@ -70,7 +70,7 @@ func DrawDirSpec(t *tape.Tape, o DirOpts) DirSpec {
 	}
 	s.Mined = t.Intn(6)
 	s.MineBit = 6 + t.Intn(15) // 6..20 bits of shared prefix
-	s.Style = t.Intn(5)
+	s.Style = t.Intn(6)
 	s.Seed = t.Raw()
 	for t.Pos() < start+8 {
 		t.Skip(1)
@@ -99,6 +99,8 @@ func Names(s DirSpec) []string {
 			return fmt.Sprintf("%02X%d", byte(r.Next()), i) // hex-looking prefixes
 		case 2:
 			return fmt.Sprintf("n %d é☃", i) // spaces and unicode
+		case 5: // names that are not valid UTF-8 and differ only inside the invalid bytes
+			return fmt.Sprintf("r%cs%c%d", []byte{0xe9, 0xe8, 0xff, 0xc0}[i%4], []byte{0xe9, 0xe8}[(i/4)%2], i/8)
 		case 4: // very short names: one character, then two
 			const al = "abcdefghijklmnopqrstuvwxyz0123456789ABCDEF"
 			if i < len(al) {
@@ -170,6 +172,8 @@ func WriteShardedDir(st *store.Store, s DirSpec) (cid.Cid, map[string]cid.Cid, e
 	case "boxo", "boxo-history":
 		c, final, err := writeDirWithBoxo(st, names, entries, s)
 		return c, final, err
+	case "mixed-fanout":
+		return writeMixedFanout(st, names, entries, s), entries, nil
 	}
 	return cid.Undef, nil, fmt.Errorf("unknown dir writer %q", s.Writer)
 }
@@ -327,6 +331,47 @@ func WriteDeepShardChain(st *store.Store, fanout, depth int, name string) cid.Ci
 		c, _ := cid.Prefix{Version: 1, Codec: cid.DagProtobuf, MhType: mh.SHA2_256, MhLength: 32}.Sum(b)
 		st.Put(c, b)
 		child = c
+	}
+	return child
+}
+
+// WriteDiamondShardChain writes a hostile sharded directory of depth levels in
+// which every shard links TWICE to the same child shard (two buckets, one
+// block), ending in a shard that holds leaf entries (or none). The DAG has
+// depth+1 blocks but 2^depth root-to-leaf paths: anything that walks it as a
+// tree without memoising per block does exponential work.
+func WriteDiamondShardChain(st *store.Store, fanout, depth, leafEntries int) cid.Cid {
+	pad := len(fmt.Sprintf("%X", fanout-1))
+	mk := func(links []RawLink, bits []int) cid.Cid {
+		bf := make([]byte, fanout/8)
+		for _, i := range bits {
+			bf[len(bf)-1-i/8] |= 1 << (uint(i) % 8)
+		}
+		for len(bf) > 1 && bf[0] == 0 {
+			bf = bf[1:]
+		}
+		u := &RawUnixFS{Type: 5, HasType: true, Data: bf, HasData: true, HashType: 0x22, HasHashType: true, Fanout: uint64(fanout), HasFanout: true}
+		n := &RawNode{Links: links, Data: u.Encode(), HasData: true}
+		b := n.Encode()
+		c, _ := cid.Prefix{Version: 1, Codec: cid.DagProtobuf, MhType: mh.SHA2_256, MhLength: 32}.Sum(b)
+		st.Put(c, b)
+		return c
+	}
+	var links []RawLink
+	var bits []int
+	for i := 0; i < leafEntries && i < fanout; i++ {
+		name := fmt.Sprintf("leaf%d", i)
+		t := EntryTarget(st, name)
+		links = append(links, RawLink{Hash: t.Bytes(), HasHash: true, Name: fmt.Sprintf("%0*X%s", pad, i, name), HasName: true, Tsize: 1, HasTsize: true})
+		bits = append(bits, i)
+	}
+	child := mk(links, bits)
+	for level := 0; level < depth; level++ {
+		ls := []RawLink{
+			{Hash: child.Bytes(), HasHash: true, Name: fmt.Sprintf("%0*X", pad, 1), HasName: true, Tsize: 1, HasTsize: true},
+			{Hash: child.Bytes(), HasHash: true, Name: fmt.Sprintf("%0*X", pad, 2), HasName: true, Tsize: 1, HasTsize: true},
+		}
+		child = mk(ls, []int{1, 2})
 	}
 	return child
 }
